@@ -64,7 +64,7 @@ def build_corpus(rep, seed, n_grammars, max_units, bits_share=0.15, bytes_share=
         if gen.count_derivations(g, 8 if g["flavour"] == "bits" else max_units) > 2500:
             continue        # keeps the exhaustive enumeration of the corpus small (a corpus choice, not an oracle)
         grammars[gid] = g
-    for g in (extra or []) + (mixed_grammars() if bytes_share > 0 else []):
+    for g in (extra or []) + (mixed_grammars() if bytes_share > 0 else []) + (assertion_grammars() if regex_ok else []):
         gid += 1
         grammars[gid] = g
     # grammars in which a named empty-deriving symbol is expected at several places (same input position included)
@@ -127,6 +127,19 @@ def build_corpus(rep, seed, n_grammars, max_units, bits_share=0.15, bytes_share=
                         inside.append(ws)
         cases.append({"gid": k, "g": g, "spec": gen.render(g), "enum": e, "inside": inside, "outside": outside})
     return cases
+
+
+def assertion_grammars():
+    """regex terminals with each kind of leading zero-width assertion, placed after input that would satisfy (or falsify)
+    the assertion if the terminal could see it"""
+    T = gen.lit_text
+    R = lambda cls, lo, hi, pre, ps="": gen.regex([(cls, lo, hi)], pre=pre, pre_set=ps)     # noqa
+    bodies = [gen.cat(T("a"), gen.alt(R("xy", 1, 2, 1, "a"), T("c"))),                 # (?<=[a])[xy]{1,2} after "a"
+              gen.cat(gen.regex([("ab", 1, 2)]), gen.alt(R("ab", 1, 2, 3), T("-")), T("z")),     # \B[ab]{1,2} after letters
+              gen.cat(T("w"), gen.alt(R(";-", 1, 1, 2), T("0"))),                      # \b[;-] after a word character
+              gen.cat(T("x"), R("ab", 1, 2, 4)),                                       # ^[ab]{1,2} in the middle of the input
+              gen.cat(gen.rep(T("-"), 0, 1), R("ab", 1, 2, 2), T(";"))]                # \b[ab]{1,2} after an optional non-word character
+    return [{"start": "<start>", "rules": {"<start>": b}, "flavour": "text", "computed": 0} for b in bodies]
 
 
 def mixed_grammars():
